@@ -19,6 +19,7 @@ def make(family, rng, tier):
     else:
         scn = sysgen.gen(rng, rng.choice(ALGOS) if ALGOS else None, PROP, tier)
     scn["oracles"] = ORACLES
+    scn["defer"] = ["C01.", "C02."]
     return scn
 
 
